@@ -6,7 +6,7 @@ for d in /verif/seeded/${FILTER:-*}/; do
   checks="$P"
   [ "$id" = "C19-m3" ] && checks="C19,C20"; [ "$id" = "C19-w2m1" ] && checks="C19,C20"; [ "$id" = "C05-w2m1" ] && checks="C05,C01"; [ "$id" = "C09-w3m3" ] && checks="C09,C16"
   [ "$id" = "C05-w5m2" ] && checks="C05,C01"; [ "$id" = "C08-w5m2" ] && checks="C08,C16"; [ "$id" = "C06-w5m2" ] && checks="C06,C20"; [ "$id" = "C04-w6f6m2" ] && checks="C04,C01"
-  [ "$id" = "C01-w7m1" ] && checks="C01,C17"; [ "$id" = "C05-w7m1" ] && checks="C05,C17"; [ "$id" = "C05-w7m2" ] && checks="C05,C17"; [ "$id" = "C08-w7m2" ] && checks="C08,C03"; [ "$id" = "C20-w7m2" ] && checks="C20,C16"; [ "$id" = "C05-w8m2" ] && checks="C05,C01"; [ "$id" = "C05-w9m1" ] && checks="C05,C01"; [ "$id" = "C19-w9m2" ] && checks="C19,C20"; [ "$id" = "C09-w10m1" ] && checks="C09,C02"
+  [ "$id" = "C01-w7m1" ] && checks="C01,C17"; [ "$id" = "C05-w7m1" ] && checks="C05,C17"; [ "$id" = "C05-w7m2" ] && checks="C05,C17"; [ "$id" = "C08-w7m2" ] && checks="C08,C03"; [ "$id" = "C20-w7m2" ] && checks="C20,C16"; [ "$id" = "C05-w8m2" ] && checks="C05,C01"; [ "$id" = "C05-w9m1" ] && checks="C05,C01"; [ "$id" = "C19-w9m2" ] && checks="C19,C20"; [ "$id" = "C09-w10m1" ] && checks="C09,C02"; [ "$id" = "C07-w11m1" ] && checks="C07,C19"; [ "$id" = "C07-w11m2" ] && checks="C07,C16"
   python3 /verif/tools/evalmut.py "$d" "$P" --checks "$checks" --seeds "$SEEDS" > "$d/eval.json" 2>/dev/null
   python3 - "$d" "$id" "$P" <<'PY'
 import json,sys,os
